@@ -78,7 +78,8 @@ TSendFail == ~dead /\ IsEvent("csendfail") /\ CSetSendFail(Ev.n) /\ UNCHANGED de
 TAck ==
   /\ ~dead /\ IsEvent("cack")
   /\ IF HasResultFor(Ev.id)
-     THEN CAck(Ev.id) /\ Report(Flag(Ev.err, "clientAckError") \cup (IF "st" \in DOMAIN Ev THEN StDiff(Ev.st) ELSE {}))
+     THEN CAck(Ev.id) /\ Report(Flag(Ev.err, "clientAckError") \cup Flag("snapmut" \in DOMAIN Ev /\ Ev.snapmut, "clientResultsSnapshotMutated")
+                               \cup (IF "st" \in DOMAIN Ev THEN StDiff(Ev.st) ELSE {}))
      ELSE UNCHANGED cvars /\ Report(Flag(~Ev.err, "clientAckOfNothing"))
   /\ UNCHANGED dead
 TAwait ==
